@@ -279,7 +279,7 @@ def run_study_case(job):
         f.write(spec_text(case, d))
     out = os.path.join(d, "out")
     env = {"E2E_MARK_LOG": os.path.join(d, "marks.log"), "E2E_POLL_SLEEP": str(POLL_SLEEP),
-           "E2E_STUDY_DIR": out, "E2E_SNAP_DIR": os.path.join(d, "snap"), "E2E_MAX_POLLS": "80"}
+           "E2E_STUDY_DIR": out, "E2E_SNAP_DIR": os.path.join(d, "snap"), "E2E_MAX_POLLS": str(case.get("max_polls", 80))}
     log = os.path.join(d, "run.log")
     common_args = ["-s", POLL_SLEEP, "--attempts", case["attempts"], "--rlimit", case["rlimit"],
                    "--throttle", case["throttle"]] + flag_args(case) + ["-o", out, "spec.yaml"]
@@ -703,6 +703,30 @@ def case_key(case, mode=""):
 # ----------------------------------------------------------------------------
 # C05: the exit-code clause
 # ----------------------------------------------------------------------------
+def gen_abort_study(rng, how):
+    """A study that goes down on an error in the middle: a job is in flight when the status query
+    returns ERROR (how='qerror') or an adapter call raises (how='submit'/'check_jobs'/'write_script')."""
+    case = gen_scripted_study(rng, shape=rng.choice(["chain", "diamond", "fanout", "layered"]))
+    case["params"], case["hashws"] = [], False
+    for st in case["steps"]:
+        st.pop("use", None)
+        st["scheduled"] = True
+        st.pop("code", None)
+        st["submit"] = [True] * 6
+        st["reports"] = ["RUNNING"] * rng.randint(1, 2) + ["FINISHED"]
+    k = rng.randint(1, 2)
+    if how == "qerror":
+        case["qcodes"] = ["OK"] * k + ["ERROR"]
+    else:
+        case["qcodes"] = ["OK"]
+        case["faults"] = [{"call": how, "n": k if how != "write_script" else rng.randint(1, max(1, len(case["steps"]) - 1)),
+                           "exc": rng.choice(["OSError", "ValueError", "RuntimeError"])}]
+    case["expect_abort"] = how
+    case["scenario"] = "abort-" + how
+    case["throttle"] = 0
+    return case
+
+
 def exit_code_cases(rng, n):
     """n study slots; each all-local study is run through `maestro run -fg` AND
     through the `conductor` entry point on the stored study (all succeed /
@@ -712,6 +736,11 @@ def exit_code_cases(rng, n):
     TIMEDOUT+restart / CANCELLED reports, cancel lock while jobs run, query
     faults).  -> list of {"case", "mode"} items for `check_exit_codes`."""
     items = []
+    for k, how in enumerate(["qerror", "submit", "check_jobs", "write_script"][:max(2, n // 4)]):
+        # the study goes down on an error mid-way: the exit code must not claim a verdict
+        items.append({"case": gen_abort_study(rng, how), "mode": "fg"})
+    items.append({"case": gen_abort_study(rng, "qerror"), "mode": "conductor"})
+    items.append({"case": gen_abort_study(rng, "submit"), "mode": "conductor"})
     for i in range(n):
         if i % 3 == 2:
             case = gen_scripted_study(rng, cancel=(i % 4 == 1), qfault=(i % 5 == 0))
@@ -841,7 +870,7 @@ def scripted_spec(case, d):
                                      for p in case["params"]}
     script = {"log": alog, "submit_by_prefix": {s["name"]: s["submit"] for s in case["steps"] if s["scheduled"]},
               "reports_by_prefix": {s["name"]: s["reports"] for s in case["steps"] if s["scheduled"]},
-              "qcodes": case["qcodes"]}
+              "qcodes": case["qcodes"], "faults": case.get("faults", [])}
     return yaml.safe_dump(spec, default_flow_style=False, sort_keys=False), script
 
 
@@ -1017,7 +1046,28 @@ def evaluate_scripted(ck, tag, items, pidnum=5, clause=None):
                "impl": None if ecase is None else ecase["polls"]}
         summ.append(rec)
         flags = " ".join(flag_args(it["case"])) or "none"
-        if res["rc"] in (99, 124):
+        exp = it["case"].get("expect_abort")
+        if exp:
+            log_ = []
+            try:
+                log_ = [json.loads(ln) for ln in open(os.path.join(it["dir"], "adapter.log")).read().split("\n") if ln]
+            except Exception:
+                pass
+            hit = any(e.get("call") == "fault" for e in log_) or \
+                any(e.get("call") == "check_jobs" and e.get("q") == "ERROR" for e in log_)
+            rec["fault_hit"] = hit
+            if hit and res["rc"] in STATUS_OF_RC:
+                rec["violations"] = ["the study went down on an error in the middle (%s) but `%s` exited %d = %s, as if "
+                                     "the study had reached that verdict" % (
+                                         exp, "maestro run -fg" if it["mode"] == "fg" else "conductor", res["rc"],
+                                         STATUS_OF_RC[res["rc"]])]
+            elif hit and exp != "qerror":
+                # an exception out of an adapter call is outside the model's vocabulary: the clause above is the check
+                shutil.rmtree(it["dir"], ignore_errors=True)
+                continue
+        if rec["violations"]:
+            pass
+        elif res["rc"] in (99, 124):
             rec["violations"] = ["the study did not terminate: stopped by the harness after its poll budget (flags: %s, -t %s -a %s -r %s)"
                                  % (flags, it["case"]["throttle"], it["case"]["attempts"], it["case"]["rlimit"])]
         elif res["rc"] not in STATUS_OF_RC and "ERROR" not in it["case"].get("qcodes", []):
